@@ -19,6 +19,7 @@ package py
 //@ immutable Slice.Start Slice.Stop Slice.Step
 //@ immutable Exception.Base
 //@ immutable Range.Start Range.Stop Range.Step Range.Length
+//@ immutable Frame.Code
 //@ immutable ghost bigval
 
 // ---- global invariants (state established by package init; no non-init function writes these variables) ----
@@ -99,12 +100,15 @@ package py
 
 //@ spec blockWF(f *Frame) bool = (len(f.Blockstack) == 0 ==> f.Block == nil) && (len(f.Blockstack) > 0 ==> f.Block == eaddr(f.Blockstack, len(f.Blockstack) - 1))
 
+//@ spec levelsWF(f *Frame) bool = forall k in [0, len(f.Blockstack)): f.Blockstack[k].Level >= 0
+
 //@ func (*Frame).PushBlock(f, Type, Handler, Level)
 //@   modifies f.Blockstack, f.Block, mem(f.Blockstack)
 //@   ensures len: len(f.Blockstack) == len(old(f.Blockstack)) + 1
 //@   ensures top: f.Block != nil && f.Block.Type == Type && f.Block.Handler == Handler && f.Block.Level == Level
 //@   ensures wf: blockWF(f)
 //@   ensures below: forall k in [0, len(old(f.Blockstack))): f.Blockstack[k] == old(f.Blockstack[k])
+//@   ensures levels: old(levelsWF(f)) && Level >= 0 ==> levelsWF(f)
 
 //@ func (*Frame).PopBlock(f)
 //@   requires nonempty: len(f.Blockstack) > 0
@@ -112,3 +116,4 @@ package py
 //@   ensures len: len(f.Blockstack) == len(old(f.Blockstack)) - 1
 //@   ensures wf: blockWF(f)
 //@   ensures same: ref(f.Blockstack) == old(ref(f.Blockstack)) && off(f.Blockstack) == old(off(f.Blockstack))
+//@   ensures levels: old(levelsWF(f)) ==> levelsWF(f)
